@@ -270,14 +270,28 @@ func c05Rollover(c *Ctx) {
 	}
 	reg := fi.Iteration(fi.Loops[0])
 	differs := Cmp{token.NEQ, FieldLoad("produceSet.producerEpoch"), FieldLoad("ProducerMessage.producerEpoch")}
-	es := reg.EstablishingEdges(differs)
-	if len(es) == 0 {
+	if len(reg.EstablishingEdges(differs)) == 0 {
 		c.Fail(rule, fn, "epoch-test", nil, "no test buffer.producerEpoch != msg.producerEpoch before buffer.add: records of two epochs end up in one batch", nil)
 	}
-	for _, e := range es {
-		sub := reg.From(Pt{e.To, 0})
-		it, path := sub.MustPrecede(p.CallWith("brokerProducer.waitForSpace", 2, ConstBool(true)), p.CallTo("produceSet.add"))
-		c.Check(it.IsZero(), rule, fn, "rollover-before-add", lastInstr(e.From), "forced rollover precedes add when the epoch changed", "a message of a new epoch can be added to the buffer of the old epoch without a forced rollover", path)
+	// every path to buffer.add either knows the producer is not idempotent, or knows the epochs are equal, or
+	// passed a forced rollover — whatever else the condition mentions (a conjunct such as !buffer.empty()
+	// opens a path around the rollover)
+	noPid, _ := p.ConstNamed("noProducerID")
+	safe := AnyOf{
+		Cmp{token.EQL, FieldLoad("transactionManager.producerID"), ConstInt(noPid)},
+		Cmp{token.EQL, FieldLoad("produceSet.producerEpoch"), FieldLoad("ProducerMessage.producerEpoch")},
+	}
+	forced := p.CallWith("brokerProducer.waitForSpace", 2, ConstBool(true))
+	r2 := *reg
+	r2.Cut = func(from, to *ssa.BasicBlock) bool { return Establishes(from, to, safe) }
+	adds := reg.Find(p.CallTo("produceSet.add"))
+	if len(adds) == 0 {
+		c.Unresolved(rule, "buffer.add in run")
+	}
+	for _, a := range adds {
+		it, path := r2.Reach(IsItem(a), forced)
+		c.Check(it.IsZero(), rule, fn, "rollover-before-add", a.Instr(), "buffer.add is reached only with equal epochs, a non-idempotent producer, or after a forced rollover",
+			"a message can be added to a buffer created under another producer epoch without a forced rollover (e.g. when the stale buffer is empty): the batch is stamped with the old epoch and the broker answers duplicate/out-of-order", path)
 	}
 }
 
